@@ -5,6 +5,7 @@ package conc
 import (
 	"fmt"
 	"sort"
+	"strings"
 	"testing"
 	"time"
 
@@ -25,6 +26,7 @@ type qprog struct {
 	Observer  int     `json:"observer,omitempty"`   // number of observer calls (GetSize, IsEmpty, AsArray, GetIterator in turn)
 	RemoveAll int     `json:"remove_all,omitempty"` // number of RemoveAll calls by an extra thread
 	Elem      string  `json:"elem,omitempty"`       // element type of the queue: int (default), any, anynil, string -- see queueCodec
+	Iterate   bool    `json:"iterate,omitempty"`    // every observer call obtains an iterator and walks it
 }
 
 // The programs are written over the values 1, 2, 3, ...; a codec turns them into the queue's elements.
@@ -150,6 +152,21 @@ func runProgramE[E any](p qprog, src core.Source, cd lib.Codec[E]) *qrun {
 		s.Go("O", func() {
 			for k := 0; k < p.Observer; k++ {
 				switch {
+				case p.Iterate:
+					r.call("O", "Iterate", 0, func(e *qevent) {
+						it := q.GetIterator()
+						e.Arr = []int{}
+						for it.HasNext() {
+							e.Arr = append(e.Arr, cd.Dec(it.GetNext()))
+						}
+						// walking back yields the same values: the iterator is a cursor over one snapshot
+						for i := len(e.Arr) - 1; i >= 0 && it.HasPrevious(); i-- {
+							if v := cd.Dec(it.GetPrevious()); v != e.Arr[i] {
+								e.Arr = append(e.Arr, -1000-v) // shows as an invented value
+								break
+							}
+						}
+					})
 				case k%2 == 0:
 					r.call("O", "AsArray", 0, func(e *qevent) { e.Arr = append([]int{}, lib.DecAll(cd, q.AsArray())...) })
 				case k%6 == 1:
@@ -490,6 +507,24 @@ func checkClauses(r *qrun) *core.Violation {
 							if !found {
 								return core.Violate("C04/observer-misses-value", "%s does not show %d although Add(%d) had returned and nothing was removed\nhistory: %s", o.Op, v, v, historyString(r.events))
 							}
+						}
+					}
+				}
+			}
+			if !hasRemoveAll {
+				// values leave at the head only: if the view shows a value, it shows every younger value that
+				// had certainly been added before the view was asked for
+				shown := map[int]bool{}
+				for _, x := range o.Arr {
+					shown[x] = true
+				}
+				for v, av := range added {
+					if !shown[v] {
+						continue
+					}
+					for w, aw := range added {
+						if av.Ret != 0 && av.Ret < aw.Inv && aw.Ret != 0 && aw.Ret < o.Inv && !shown[w] {
+							return core.Violate("C04/observer-misses-value", "%s shows %d but not the younger %d, although Add(%d) had returned before the view was asked for (values leave at the head only)\nhistory: %s", o.Op, v, w, w, historyString(r.events))
 						}
 					}
 				}
@@ -835,6 +870,31 @@ func TestC04(t *testing.T) {
 	core.DFS(r, core.Check[qprog]{Name: "all-schedules-element-types", Gen: genElemProgram, Exec: execProgram("C04"), Bounded: true}, r.N(4000, 200000))
 	core.Rapid(r, core.Check[qprog]{Name: "sampled-schedules", Gen: genRandomProgram, Exec: execProgram("C04")}, r.N(2500, 50000))
 	familySweep(r, "C04")
+}
+
+// ---------------------------------------------------------------- C17: an iterator over a queue that other goroutines use
+
+// An iterator obtained while producers and consumers are at work enumerates the queue as it was at one moment:
+// values that had been added and not yet removed, oldest first, none twice, none missing behind one that is
+// shown -- and the same values walking back.
+var iteratorPrograms = []qprog{
+	{Name: "iterate-1p2v-1c1-cap2", Cap: 2, Producers: [][]int{{1, 2}}, Consumers: []int{1}, Observer: 2, Iterate: true},
+	{Name: "iterate-1p3v-1c2-cap3", Cap: 3, Producers: [][]int{{1, 2, 3}}, Consumers: []int{2}, Observer: 1, Iterate: true},
+	{Name: "iterate-1p2v-1c-cap1", Cap: 1, Producers: [][]int{{1, 2}}, Consumers: []int{-1}, Closer: true, Observer: 2, Iterate: true},
+	{Name: "iterate-2p1v-0c-cap2", Cap: 2, Producers: [][]int{{1}, {2}}, Consumers: []int{}, Observer: 2, Iterate: true},
+}
+
+func TestC17Sched(t *testing.T) {
+	r := core.Begin(t, "C17")
+	defer r.End()
+	exec := func(p qprog, src core.Source) (res core.Result) {
+		res = execProgram("C04")(p, src)
+		if res.Violation != nil {
+			res.Violation.Signature = "C17/queue-iterator/" + strings.TrimPrefix(res.Violation.Signature, "C04/")
+		}
+		return
+	}
+	core.DFS(r, core.Check[qprog]{Name: "queue-iterator-schedules", Gen: func(s core.Source) qprog { return iteratorPrograms[s.Choose(len(iteratorPrograms), "program")] }, Exec: exec, Bounded: true}, r.N(20000, 400000))
 }
 
 func TestC05(t *testing.T) {
